@@ -1,7 +1,7 @@
 #!/usr/bin/env python3
 """Development self-test: applies each small mutation of selftest/mutations.json to a scratch copy of /repo and
 expects the named property's check to report a violation (exit 1) while the unmutated copy stays green.
-usage: tools/selftest.py [PROP ...] [--only NAME]"""
+usage: tools/selftest.py [PROP ...] [--only NAME] [--last N]"""
 import json, os, shutil, subprocess, sys, tempfile
 
 ROOT = os.path.dirname(os.path.dirname(os.path.abspath(__file__)))
@@ -14,6 +14,10 @@ def main():
         only = sys.argv[sys.argv.index("--only") + 1]
         args = [a for a in args if a != only]
     muts = json.load(open(os.path.join(ROOT, "selftest", "mutations.json")))
+    if "--last" in sys.argv:
+        n = sys.argv[sys.argv.index("--last") + 1]
+        args = [a for a in args if a != n]
+        muts = muts[-int(n):]
     scratch = tempfile.mkdtemp(prefix="qverif.mut.", dir="/var/tmp")
     bad = 0
     try:
